@@ -152,7 +152,7 @@ _TWIN_SWAPS = [("Minus", "Plus"), ("decrease", "increase"), ("Decrease", "Increa
 def _twin_text(t: str) -> str:
     for a, b in _TWIN_SWAPS:
         t = t.replace(a, b)
-    return t
+    return t.replace(" - ", " + ")
 
 
 def _read_paths(stmts: List[ast.stmt]) -> Set[str]:
